@@ -63,10 +63,16 @@ Tot(f) == SumOver(f, DOMAIN f)
 (*   ppre[h] = preimage of h is in the PERSISTED node entry (the node state *)
 (*             is written by add_invoice / add_keysend / a pruning          *)
 (*             heartbeat, not by htlcs_fulfilled)                           *)
+(*   iss[h]  = [amt, old]  invoice the node ISSUED (signed) itself for h, to *)
+(*             be paid TO the node (amt = 0: none).  Bookkeeping for incoming *)
+(*             value only: it gives no allowance for outgoing HTLCs.          *)
+(*             sign_bolt11_invoice does not write the node entry, so          *)
+(*   piss[h] = the issued invoice in the PERSISTED node entry                 *)
 (*   ch[c]   = [curH, nextH, curC]  accepted commitment contents            *)
 (*   time    = 0, or 1 after the clock was advanced past every prune time   *)
 (***************************************************************************)
 NoInv == [amt |-> 0, ks |-> FALSE, old |-> FALSE]
+NoIss == [amt |-> 0, old |-> FALSE]
 Zero(Cs) == [c \in Cs |-> 0]
 NoPay(Cs) == [has |-> FALSE, in |-> Zero(Cs), out |-> Zero(Cs), pre |-> FALSE]
 Fresh(Cs) == [has |-> TRUE, in |-> Zero(Cs), out |-> Zero(Cs), pre |-> FALSE]
@@ -74,6 +80,7 @@ Fresh(Cs) == [has |-> TRUE, in |-> Zero(Cs), out |-> Zero(Cs), pre |-> FALSE]
 \* both channels funded, commitment 0 exchanged (no HTLCs), nothing pending
 InitState(Cs, Hs) ==
   [ inv |-> [h \in Hs |-> NoInv], pay |-> [h \in Hs |-> NoPay(Cs)], ppre |-> [h \in Hs |-> FALSE],
+    iss |-> [h \in Hs |-> NoIss], piss |-> [h \in Hs |-> NoIss],
     ch |-> [c \in Cs |-> [curH |-> Cont(<<>>), nextH |-> NoneC, curC |-> Cont(<<>>)]],
     time |-> 0 ]
 
@@ -170,8 +177,8 @@ Revoke(s, c, k) ==
   ELSE Ok([s EXCEPT !.ch[c].curH = cs.nextH, !.ch[c].nextH = NoneC,
                     !.pay = Apply(s.pay, c, inS, outS)])
 
-\* what update_node writes: the preimages currently in memory
-Persist(s) == [s EXCEPT !.ppre = [h \in Hs(s) |-> s.pay[h].pre]]
+\* what update_node writes: the preimages and the issued invoices currently in memory
+Persist(s) == [s EXCEPT !.ppre = [h \in Hs(s) |-> s.pay[h].pre], !.piss = s.iss]
 
 \* add_invoice: an identical invoice is accepted again without change; a different one for the
 \* same hash is refused.  The harness stamps invoices relative to the clock, so the invoice
@@ -187,6 +194,13 @@ DeclineInvoice(s, h, a) ==
   LET e == s.inv[h] IN
   IF e.amt > 0 THEN (IF ~e.ks /\ e.amt = a /\ ~e.old THEN OkFlag(s, TRUE) ELSE Err(s))
   ELSE OkFlag(s, FALSE)
+\* sign_bolt11_invoice: the node signs an invoice of its own (amount a > 0) and remembers it in
+\* issued_invoices; the identical invoice is signed again, a different one for the same hash is
+\* refused.  No payment entry is created and nothing is persisted.
+IssueInvoice(s, h, a) ==
+  LET e == s.iss[h] IN
+  IF e.amt > 0 THEN (IF e.amt = a /\ ~e.old THEN Ok(s) ELSE Err(s))
+  ELSE Ok([s EXCEPT !.iss[h] = [amt |-> a, old |-> FALSE]])
 \* add_keysend: the "invoice hash" of a keysend is the payment hash itself, so any keysend for a
 \* hash that has one is the same one (the registered amount stays)
 AddKeysend(s, h, a) ==
@@ -200,23 +214,26 @@ Fulfill(s, h) ==
   IF s.pay[h].has /\ ~s.pay[h].pre THEN Ok([s EXCEPT !.pay[h].pre = TRUE]) ELSE Ok(s)
 
 \* the harness sets the clock to a fixed instant past every prune time
-Tick(s) == Ok([s EXCEPT !.time = 1,
-                        !.inv = [h \in Hs(s) |-> IF s.time = 0 /\ s.inv[h].amt > 0
-                                                 THEN [s.inv[h] EXCEPT !.old = TRUE] ELSE s.inv[h]]])
+Tick(s) ==
+  LET age(f) == [h \in Hs(s) |-> IF s.time = 0 /\ f[h].amt > 0 THEN [f[h] EXCEPT !.old = TRUE] ELSE f[h]] IN
+  Ok([s EXCEPT !.time = 1, !.inv = age(s.inv), !.iss = age(s.iss), !.piss = age(s.piss)])
 
-\* get_heartbeat: prune_invoices, prune_forwarded_payments, persist when something was pruned
+\* get_heartbeat: prune_invoices, prune_issued_invoices (by time only), prune_forwarded_payments
+\* (an entry is kept while an issued invoice for its hash exists), persist when something was pruned
 Heartbeat(s) ==
   LET P1 == {h \in Hs(s) : s.inv[h].amt > 0 /\ s.inv[h].old
                             /\ (s.pay[h].pre \/ Tot(s.pay[h].out) = 0)}
       inv1 == [h \in Hs(s) |-> IF h \in P1 THEN NoInv ELSE s.inv[h]]
       pay1 == [h \in Hs(s) |-> IF h \in P1 THEN NoPay(Cs(s)) ELSE s.pay[h]]
-      P2 == {h \in Hs(s) : inv1[h].amt = 0 /\ pay1[h].has
+      PI == {h \in Hs(s) : s.iss[h].amt > 0 /\ s.iss[h].old}
+      iss1 == [h \in Hs(s) |-> IF h \in PI THEN NoIss ELSE s.iss[h]]
+      P2 == {h \in Hs(s) : inv1[h].amt = 0 /\ iss1[h].amt = 0 /\ pay1[h].has
                             /\ Tot(pay1[h].in) = 0 /\ Tot(pay1[h].out) = 0}
       pay2 == [h \in Hs(s) |-> IF h \in P2 THEN NoPay(Cs(s)) ELSE pay1[h]]
-      s2 == [s EXCEPT !.inv = inv1, !.pay = pay2] IN
-  IF P1 \cup P2 = {} THEN Ok(s) ELSE Ok(Persist(s2))
+      s2 == [s EXCEPT !.inv = inv1, !.iss = iss1, !.pay = pay2] IN
+  IF P1 \cup PI \cup P2 = {} THEN Ok(s) ELSE Ok(Persist(s2))
 
-\* restart: the node entry gives invoices and preimages; every invoice gets a NEW payment
+\* restart: the node entry gives invoices, issued invoices (as last persisted) and preimages; every invoice gets a NEW payment
 \* entry (the restored preimage of an invoiced hash is dropped); every channel then rebuilds
 \* its part from its CURRENT commitments (restore_payments; a pending next holder commitment
 \* is not counted)
@@ -230,7 +247,7 @@ Restart(s) ==
   LET pay0 == [h \in Hs(s) |-> IF s.inv[h].amt > 0 THEN Fresh(Cs(s))
                                ELSE IF s.ppre[h] THEN [Fresh(Cs(s)) EXCEPT !.pre = TRUE]
                                ELSE NoPay(Cs(s))] IN
-  Ok([s EXCEPT !.pay = RestoreChans(pay0, s, Cs(s))])
+  Ok([s EXCEPT !.pay = RestoreChans(pay0, s, Cs(s)), !.iss = s.piss])
 
 Step(s, r, k) ==
   CASE r.op = "SignCp"              -> SignCp(s, r.ch, r.c, k)
@@ -241,6 +258,7 @@ Step(s, r, k) ==
     [] r.op = "AddInvoice"          -> AddInvoice(s, r.h, r.a)
     [] r.op = "DeclineInvoice"      -> DeclineInvoice(s, r.h, r.a)
     [] r.op = "AddKeysend"          -> AddKeysend(s, r.h, r.a)
+    [] r.op = "IssueInvoice"        -> IssueInvoice(s, r.h, r.a)
     [] r.op = "Fulfill"             -> Fulfill(s, r.h)
     [] r.op = "Tick"                -> Tick(s)
     [] r.op = "Heartbeat"           -> Heartbeat(s)
@@ -333,6 +351,7 @@ Config(name) ==
           reqs |-> ChanReqs("c1", {<<>>, <<O("h1", 1)>>, <<O("h1", 2)>>, <<O("h1", 1), O("h1", 1)>>}, FALSE)
               \cup ChanReqs("c2", {<<>>, <<O("h1", 1)>>, <<O("h1", 2)>>}, FALSE)
               \cup {[op |-> "AddInvoice", h |-> "h1", a |-> 1], [op |-> "DeclineInvoice", h |-> "h1", a |-> 1],
+                    [op |-> "IssueInvoice", h |-> "h1", a |-> 1],
                     [op |-> "Fulfill", h |-> "h1"], [op |-> "Heartbeat"], [op |-> "Restart"]}]
     [] name = "parts" ->      \* multi-part payments, two invoice amounts, keysend, retries, pruning
          [chans |-> {"c1", "c2"}, hashes |-> {"h1"},
@@ -340,6 +359,13 @@ Config(name) ==
               \cup ChanReqs("c2", {<<>>, <<O("h1", 1)>>}, TRUE)
               \cup {[op |-> "AddInvoice", h |-> "h1", a |-> 2], [op |-> "AddKeysend", h |-> "h1", a |-> 1],
                     [op |-> "Fulfill", h |-> "h1"], [op |-> "Tick"], [op |-> "Heartbeat"], [op |-> "Restart"]}]
+    [] name = "issue" ->      \* the node's own (issued) invoices: no allowance for outgoing value; receiving; expiry
+         [chans |-> {"c1", "c2"}, hashes |-> {"h1"},
+          reqs |-> ChanReqs("c1", {<<>>, <<O("h1", 1)>>, <<R("h1", 1)>>}, FALSE)
+              \cup ChanReqs("c2", {<<>>, <<O("h1", 1)>>}, FALSE)
+              \cup {[op |-> "IssueInvoice", h |-> "h1", a |-> 1], [op |-> "IssueInvoice", h |-> "h1", a |-> 2],
+                    [op |-> "AddInvoice", h |-> "h1", a |-> 1],
+                    [op |-> "Tick"], [op |-> "Heartbeat"], [op |-> "Restart"]}]
     [] name = "route" ->      \* forwarding: incoming on c1 covers outgoing on c2; unbacked attempts
          [chans |-> {"c1", "c2"}, hashes |-> {"h1"},
           reqs |-> ChanReqs("c1", {<<>>, <<R("h1", 1)>>, <<R("h1", 2)>>}, FALSE)
